@@ -22,6 +22,10 @@ func managerCase(c *h.Case, i int) {
 	rng := c.Rng
 	netType := []string{"tcp", "udp"}[rng.Intn(2)]
 	full := takeBlock()
+	if full == nil {
+		run.Inconclusive("no free port block left")
+		return
+	}
 	defer giveBlock(full)
 	block := full[:7]
 	nAllowed := 1 + rng.Intn(5)
